@@ -604,11 +604,16 @@ class GeoImage(ObjectBase):
             self._vertices = self.workspace.fetch_array_attribute(self, "vertices")
 
         if self._vertices is None and self.image is not None:
+            # the default corners are derived from the image: reading them leaves the file alone
+            self._vertices = np.asarray(
+                np.core.records.fromarrays(
+                    np.asarray(self.default_vertices, dtype=float).T,
+                    names="x, y, z",
+                    formats="<f8, <f8, <f8",
+                )
+            )
             if self.tag is not None:
-                self.vertices = self.default_vertices
                 self.georeferencing_from_tiff()
-            else:
-                self.vertices = self.default_vertices
 
         # todo: change the call from vertices to vertices_xyz in the code
         if self._vertices is not None:
